@@ -363,6 +363,9 @@ func (db *RockDB) ltrim2(ts int64, key []byte, startP, stopP int64) error {
 	if stop < 0 {
 		stop = llen + stop
 	}
+	if start < 0 {
+		start = 0
+	}
 	newLen := int64(0)
 	// whole list deleted
 	if start >= llen || start > stop {
